@@ -693,6 +693,7 @@ def run(ctx):
     rep.tie("translator:Gen_directive", not unrec, "; ".join(unrec[:3]), unrec[:1] or None)
     fixed_f21 = "gen_add_recomputes_max : bool := true" in text
     fixed_f25 = "gen_debug_match_exact : bool := true" in text
+    fixed_f22 = "gen_valuematch_eq_debug : bool := true" in text
     # ---- leg A
     rep.proof = coq_prove(ctx, "C11", ["theories/Properties/C11.vo"])
     # ---- build
@@ -825,6 +826,10 @@ def run(ctx):
         for i, ch in chunks(ecs, 60):
             terms.append(("E%d" % i, "map (fun c => run_env (fst (fst c)) (snd (fst c)) (snd c) pool) [%s]" % "; ".join(
                 "(%s, %s, %s)" % ("true" if c["regex"] else "false", "true" if c["lossy"] else "false", coq_bytes(c["s"].encode())) for c in ch)))
+        pcs = [c for c in cases if c["k"] in ("env", "hist")]
+        for i, ch in chunks(pcs, 150):
+            terms.append(("P%d" % i, "map (fun c => run_env_panics (fst (fst c)) (snd (fst c)) (snd c)) [%s]" % "; ".join(
+                "(%s, %s, %s)" % ("true" if c["regex"] else "false", "true" if c.get("lossy") else "false", coq_bytes(c["s"].encode())) for c in ch)))
         hcs = [c for c in cases if c["k"] == "hist"]
         hmod = []
         for c in hcs:
@@ -855,6 +860,9 @@ def run(ctx):
         for i, ch in chunks(hmod, 40):
             for c, r in zip(ch, res["H%d" % i]):
                 model[c["id"]] = r
+        for i, ch in chunks(pcs, 150):
+            for c, r in zip(ch, res["P%d" % i]):
+                model[("panic", c["id"])] = r
     except Exception as ex:
         rep.tie("model-eval", False, str(ex)[:400])
         model = None
@@ -895,9 +903,17 @@ def run(ctx):
                     if model is not None:
                         cmp_env(dis, c, re_, model.get(-c["id"]), True)
             elif k == "env":
+                if model is not None:
+                    mp = model.get(("panic", c["id"]))
+                    want_panic = (mp == 1 and prof == "debug")
+                    if mp in (0, 1) and bool(r.get("panic")) != want_panic:
+                        dis(c, "panic while building the filter (debug assertion in Directive::cmp)", bool(r.get("panic")), want_panic)
                 if r.get("panic"):
                     dup = c.get("struct") and has_dup_lit(c["struct"])
-                    f22 = (not c["regex"]) and prof == "debug" and (dup or (c.get("malformed") and dup_lit_text(c["s"])))
+                    # F22's shape: two directives with the same target, span and field matchers, one a Debug literal.  For a string
+                    # without a generator structure the model's parse decides (run_env_panics = the assertion fires on such a pair)
+                    model_dup = model is not None and model.get(("panic", c["id"])) == 1
+                    f22 = (not fixed_f22) and (not c["regex"]) and prof == "debug" and (dup or (c.get("malformed") and (model_dup or dup_lit_text(c["s"]))))
                     rep.violation("EnvFilter parse of %r (regex=%s) panicked [%s build]" % (c["s"], c["regex"], prof),
                                   {"case": strip_case(c), "profile": prof}, finding="F22" if f22 else None)
                     continue
@@ -908,10 +924,16 @@ def run(ctx):
                     else:
                         rep.traces_validated += 1
             elif k == "hist":
+                if model is not None:
+                    mp = model.get(("panic", c["id"]))
+                    want_panic = (mp == 1 and prof == "debug")
+                    if mp in (0, 1) and bool(r.get("panic")) != want_panic:
+                        dis(c, "panic while building the filter (debug assertion in Directive::cmp)", bool(r.get("panic")), want_panic)
                 if r.get("panic"):
                     dup = has_dup_lit(c["struct"])
                     rep.violation("EnvFilter parse of %r (regex=%s) panicked [%s build]" % (c["s"], c["regex"], prof),
-                                  {"case": strip_case(c), "profile": prof}, finding="F22" if (dup and not c["regex"] and prof == "debug") else None)
+                                  {"case": strip_case(c), "profile": prof},
+                                  finding="F22" if (dup and not c["regex"] and prof == "debug" and not fixed_f22) else None)
                     continue
                 check_hist(rep, c, r, pools, prof, fixed_f25)
                 if model is not None and prof == "debug":
